@@ -208,6 +208,12 @@ func init() {
 		case c01PlSub, c01PlNs, c01PlNsNs, c01PlNsShadow, c01PlPlainInNs:
 			late = api && !hf && short == "u" && c.Bool()
 		}
+		// the same parser has been used before (struct-tag builds with the ASCII short name): 1 = a parse that gave U two
+		// occurrences and was then rejected for an undefined option, 2 = the same without the undefined option (accepted)
+		hist := 0
+		if !api && !hf && short == "u" && ce.delim == "." {
+			hist = c.Choose(3)
+		}
 		ck := fmt.Sprintf("%d/%d/%s/%s/%v", ce.kind, ce.placement, ce.delim, short, hf)
 		cd := c01Cache[ck]
 		if cd == nil {
@@ -239,20 +245,52 @@ func init() {
 				unitNames = append(unitNames, strings.Join(u, " "))
 			}
 		}
-		key := fmt.Sprintf("%s%s%v/%v/p%d/%s/%s/api=%v/hf=%v/late=%v", kind.T.Name, kind.Base, kind.Initial != nil, kind.Optional, ce.placement, ce.delim, short, api, hf, late)
+		key := fmt.Sprintf("%s%s%v/%v/p%d/%s/%s/api=%v/hf=%v/late=%v/hist=%d", kind.T.Name, kind.Base, kind.Initial != nil, kind.Optional, ce.placement, ce.delim, short, api, hf, late, hist)
 		c.Describe(func() interface{} {
 			return map[string]interface{}{"option_type": kind.T.Name, "optional": kind.Optional, "placement": ce.placement, "delimiter": ce.delim,
-				"short": short, "api_path": api, "group_added_after_commands_and_two_parses": late, "help_flag+pass_double_dash": hf, "argv": argv, "tag_of_U": cd.u.Tag()}
+				"short": short, "api_path": api, "group_added_after_commands_and_two_parses": late, "help_flag+pass_double_dash": hf, "argv": argv, "tag_of_U": cd.u.Tag(),
+				"earlier_parse_on_same_parser(0=none,1=rejected,2=accepted)": hist}
 		})
 		cfg := &ref.Config{D: cd.d}
+		var b *decl.Built
+		if hist != 0 {
+			c.Hit("earlier-parse")
+			b = cd.d.BuildTags()
+			if b.Err != nil {
+				c.Fail("setup-error", b.Err.Error())
+				return
+			}
+			var w []string
+			switch ce.placement {
+			case c01PlCmd, c01PlCmdNs, c01PlCmdShadow, c01PlNsShadow:
+				w = []string{"add"}
+			case c01PlDeep, c01PlDeepShadow:
+				w = []string{"add", "deep"}
+			}
+			w = append(append(w, cd.units[0]...), cd.units[0]...)
+			if hist == 1 {
+				w = append(w, "--undefined-zz")
+			}
+			wr, held := earlierParse(b, cfg, w, cd.u)
+			if wr.Panic != nil {
+				c.Fail("panic|"+wr.PanicSite, fmt.Sprint("earlier parse ", w, ": ", wr.Panic))
+				return
+			}
+			if (hist == 1) != (errType(wr.Err) == "unknown flag") || (hist == 2 && wr.Err != nil) {
+				c.Fail("earlier-parse-outcome|"+kind.T.Name+"|"+errType(wr.Err), fmt.Sprint(w, ": ", wr.Err))
+				return
+			}
+			cfg.Held = held
+		}
 		res := ref.Run(cfg, argv)
 		if msg := res.CheckInvariants(argv); msg != "" {
 			c.Fail("model-invariant", msg)
 			return
 		}
 		recordStates(c, key, res, unitNames)
-		var b *decl.Built
-		if late {
+		if hist != 0 {
+			// built above
+		} else if late {
 			c.Hit("late-built")
 			b = cd.d.BuildAPIWith(func(hb *decl.Built) {
 				hb.Parser.ParseArgs([]string{"add"})
@@ -270,6 +308,9 @@ func init() {
 		if b.Err != nil {
 			c.Fail("setup-error", b.Err.Error())
 			return
+		}
+		if hist != 0 && len(res.Occs[cd.u]) > 0 {
+			c.Hit("occurrence-after-earlier-parse")
 		}
 		rr := runParser(b, cfg, argv, runOpts{})
 		if rr.Panic != nil {
@@ -301,10 +342,10 @@ func init() {
 		Rule: "option under test U of 31 kinds (a map[string]int and a []string whose fields hold entries before the parse, a slice of a bool-kinded Unmarshaler, an int with base 0, an Unmarshaler with a value receiver, a func(string) with a default tag, bool, []bool, string, int, uint8, float64, float32, Duration, *string, *int, []string, []int, []*int, map[string]string, map[string]int, " +
 			"func(), func(string), func(int) error, Unmarshaler, *Unmarshaler, []Unmarshaler, a bool-kinded Unmarshaler, a slice-kinded Unmarshaler, optional-argument string/int) x 11 placements (parser, subgroup, namespaced, doubly namespaced, command, " +
 			"command's namespaced group, sub-subcommand, shadowing an ancestor's option at two depths, shadowing through an identical namespaced long name, plain group nested in a namespaced group) x namespace delimiter {., ::} x short name {u, é} x {struct tags, AddGroup/AddCommand API, API with the parser's groups added after the commands and after two parses that selected them} " +
-			"x {None, HelpFlag|PassDoubleDash (on three of the placements)}; every sequence of <= 3 (quick) / <= 4 (thorough) units over all spellings of U with 1-3 values and with the empty attached value (--name= or -u=), bystander options, command words and a plain word, plus beyond that bound every unit repeated 5, 8, 9, 10, 16, 17 and 33 times; " +
+			"x {None, HelpFlag|PassDoubleDash (on three of the placements)} x {fresh parser; on tag-built declarations also: the same parser has already parsed a line that gave U two occurrences and was rejected for an undefined option / the same line without the undefined option, accepted - U then holds what that line left unless it occurs again, in which case it holds only what the new line denotes}; every sequence of <= 3 (quick) / <= 4 (thorough) units over all spellings of U with 1-3 values and with the empty attached value (--name= or -u=), bystander options, command words and a plain word, plus beyond that bound every unit repeated 5, 8, 9, 10, 16, 17 and 33 times; " +
 			"oracle = command-line reference model (CLM) + conversion model; compared on every successful parse; states = distinct (declaration, CLM state), distinct = distinct (declaration, error class, #occurrences, value of U)",
 		Assumptions:  []string{"multi-valued optional-argument options are kept out (bare occurrence semantics undocumented)", "flags of a cluster that precede an unknown character are not asserted"},
-		RequiredHits: []string{"compared", "repeated-occurrence", "model-fault", "late-built"},
+		RequiredHits: []string{"compared", "repeated-occurrence", "model-fault", "late-built", "earlier-parse", "occurrence-after-earlier-parse"},
 		Bound:        [2]string{"all unit sequences of length <= 3", "all unit sequences of length <= 4"},
 		BudgetS:      [2]int{170, 1500},
 	})
